@@ -131,9 +131,9 @@ impl FieldElement for BaseElement {
 
     #[inline]
     fn double(self) -> Self {
-        let ret = (self.0 as u128) << 1;
-        let (result, over) = (ret as u64, (ret >> 64) as u64);
-        Self(result.wrapping_sub(M * over))
+        // NOTE: shifting the Montgomery representation left by one bit and subtracting M only
+        // when the 65-th bit is set leaves values in [M, 2^64) unreduced
+        self + self
     }
 
     #[inline]
